@@ -1,6 +1,7 @@
 import StunVerif.Props.C04
 import StunVerif.Props.C04Seal
 import StunVerif.Props.RefHashes
+import StunVerif.Props.SrcFnIntegrity
 #print axioms StunVerif.C04.key_def
 #print axioms StunVerif.C04.validate_spec
 #print axioms StunVerif.C04.missing
@@ -15,3 +16,14 @@ import StunVerif.Props.RefHashes
 #print axioms StunVerif.RefHashes.hmac_length
 #print axioms StunVerif.RefHashes.refHashes_ok
 #print axioms StunVerif.RefHashes.rfc_vectors
+#print axioms StunVerif.SrcFnIntegrity.FaultEq.rfl'
+#print axioms StunVerif.SrcFnIntegrity.FaultEq.of_faults
+#print axioms StunVerif.SrcFnIntegrity.FaultEq.eq_of_not_fault
+#print axioms StunVerif.SrcFnIntegrity.match_ite
+#print axioms StunVerif.SrcFnIntegrity.scan_nil_fault
+#print axioms StunVerif.SrcFnIntegrity.raw_value_le
+#print axioms StunVerif.SrcFnIntegrity.mi_len
+#print axioms StunVerif.SrcFnIntegrity.scan_agree
+#print axioms StunVerif.SrcFnIntegrity.src_validateIntegrity_faultEq
+#print axioms StunVerif.SrcFnIntegrity.accepted_size
+#print axioms StunVerif.SrcFnIntegrity.src_validateIntegrity
